@@ -281,9 +281,10 @@ def main(tier: str, seed: int, only=None) -> int:
     cases = list(generate(tier, only))
     runs_total = sum(len(c["runs"]) for c in cases)
     # host runs are only needed for the potentiometer space
+    cases += common.witness_cases(report)
     pot = [c for c in cases if c["space"] == "P"]
     others = [c for c in cases if c["space"] != "P"]
-    common.drive(report, MOD, others, opts={"host": False}, batch_size=4, bad=("violation", "nocompile", "transpile_crash", "transpile_timeout"))
+    common.drive(report, MOD, others, opts={"host": False}, batch_size=4, bad=("violation", "nocompile", "transpile_crash", "transpile_timeout"), include_witnesses=False)
     common.drive(report, MOD, pot, opts={"host": True}, batch_size=4, bad=("violation", "nocompile", "transpile_crash", "transpile_timeout"), include_witnesses=False)
     report.transitions = runs_total
     report.traces_validated = runs_total
